@@ -238,3 +238,25 @@ c('DateTime::from_timestamp_micros', U,
           "&& r.unwrap().datetime.time.frac as int % 1_000 == 0 && r.unwrap().datetime.time.frac < 1_000_000_000")
 c('DateTime::from_timestamp_nanos', U,
   ensures="dtwf(r.datetime) && unix_secs(r.datetime) * 1_000_000_000 + r.datetime.time.frac as int == nanos as int && r.datetime.time.frac < 1_000_000_000")
+
+# ------------------------------------------------------------------------------------------------
+# C03  day / week iterators (src/naive/date/mod.rs) -- Verus (units/iters.py)
+U = 'verus:iters'
+c('NaiveDate::MAX', 'kani:vk_date_consts+verus:date', ensures="dwf(r), dn(r) == DN_MAX()")
+c('NaiveDate::MIN', 'kani:vk_date_consts+verus:date', ensures="dwf(r), dn(r) == DN_MIN()")
+c('Days::new', U, ensures="r.0 == num")
+c('NaiveDate::iter_days', U, ensures="r.value == *self")
+c('NaiveDate::iter_weeks', U, ensures="r.value == *self")
+def it_step(k, sign):
+    lim = "dn(old(self).value) + %d <= DN_MAX()" % k if sign == '+' else "dn(old(self).value) - %d >= DN_MIN()" % k
+    return ("r.is_some() <==> %s, "
+            "r.is_some() ==> r.unwrap() == old(self).value && dwf(final(self).value) && dn(final(self).value) == dn(old(self).value) %s %d, "
+            "r.is_none() ==> final(self).value == old(self).value") % (lim, sign, k)
+c('NaiveDateDaysIterator::Iterator__next', U, requires="dwf(old(self).value)", ensures=it_step(1, '+'))
+c('NaiveDateDaysIterator::DoubleEndedIterator__next_back', U, requires="dwf(old(self).value)", ensures=it_step(1, '-'))
+c('NaiveDateDaysIterator::Iterator__size_hint', U, requires="dwf(self.value)",
+  ensures="r.0 as int == DN_MAX() - dn(self.value), r.1 == Some(r.0)")
+c('NaiveDateWeeksIterator::Iterator__next', U, requires="dwf(old(self).value)", ensures=it_step(7, '+'))
+c('NaiveDateWeeksIterator::DoubleEndedIterator__next_back', U, requires="dwf(old(self).value)", ensures=it_step(7, '-'))
+c('NaiveDateWeeksIterator::Iterator__size_hint', U, requires="dwf(self.value)",
+  ensures="r.0 as int == (DN_MAX() - dn(self.value)) / 7, r.1 == Some(r.0)")
